@@ -107,7 +107,7 @@ PROPS = {
                        'Err <=> first addition absent and a later one present (ExtensionFieldsInconsistent), the scope ends exhausted; the reader driver reports exactly those bits.',
     },
     'C05': {
-        'verus': [U_SCOPE, U_PER_DEP, U_BITS_DEP],
+        'verus': [U_SCOPE, U_UPER, U_PER_DEP, U_BITS_DEP],
         'search_groups': ['seq'],
         'bounded_search': [('seq', 'all SEQUENCE shapes with n <= 4 components x kinds {mandatory, OPTIONAL, DEFAULT} x marker position x all presence patterns through the real Writer/Reader API against an X.691 reference encoding; cross-version pairs with up to 5 components')],
         'assumptions': [
